@@ -181,7 +181,7 @@ package allocation
 
 //@ func (*FiveTuple).Fingerprint
 //@   pure
-//@   ensures [C04:fp] structkey(fp) == tupleKey(f.SrcAddr, f.DstAddr, int(f.Protocol))
+//@   ensures [C04,C19:fp] structkey(fp) == tupleKey(f.SrcAddr, f.DstAddr, int(f.Protocol))
 
 //@ func (*Manager).GetAllocation
 //@   requires fiveTuple != nil
